@@ -77,10 +77,10 @@ fn run(r: &mut Run) -> Result<(), MachineryError> {
     let t = r.tier;
     let a1 = [L, SP, HY, W, E2, CM, CSI, TAB, OSH];
     let a2 = [L, SP, W, E2, CSI, TAB, NL];
-    text_space(r, "C05/fits(single paragraph)", &a1, t.pick(4, 5), &gamma(false), M_C05, WidthMode::Bytes, 0)?;
-    text_space(r, "C05/fits(paragraphs)", &a2, t.pick(4, 5), &gamma(true), M_C05, WidthMode::Bytes, 3)?;
+    text_space(r, "C05/fits(single paragraph)", &a1, t.pick(4, 6), &gamma(false), M_C05, WidthMode::Bytes, 0)?;
+    text_space(r, "C05/fits(paragraphs)", &a2, t.pick(4, 6), &gamma(true), M_C05, WidthMode::Bytes, 3)?;
     differential(r, "C05/differential", &a1, t.pick(4, 5))?;
-    differential(r, "C05/differential(paragraphs)", &a2, t.pick(3, 5))?;
+    differential(r, "C05/differential(paragraphs)", &a2, t.pick(3, 6))?;
     escape_scan_space(r, "C05/escape-grammar-scan", M_C05, algs_default())?;
     Ok(())
 }
